@@ -25,6 +25,9 @@ from metapype.model.node import Node
 
 logger = daiquiri.getLogger(__name__)
 
+# Namespace that is bound to the reserved prefix "xml" in every document
+XML_NAMESPACE = "http://www.w3.org/XML/1998/namespace"
+
 # Additional entity for escaping text that is written inside a double-quoted attribute value
 QUOT = {'"': "&quot;"}
 
@@ -88,6 +91,9 @@ def _format_extras(name: str, nsmap: dict) -> str:
     if match is not None:
         uri = match.group(1)
         target = match.group(2)
+        if uri == XML_NAMESPACE:
+            # The xml prefix is bound implicitly and never listed in an element's nsmap
+            nsname = f"xml:{target}"
         for k, v in nsmap.items():
             if uri == v:
                 nsname = f"{k}:{target}"
